@@ -24,6 +24,8 @@ static COUNTER: Mutex<Option<HashMap<String, usize>>> = Mutex::new(None);
 
 /// A function used to count named objects
 fn count<S: Into<String>>(key: S) -> usize {
+    #[cfg(feature = "qrlew_verif")]
+    crate::verif::sched_point("namer::count");
     *COUNTER
         .lock()
         .unwrap()
@@ -43,6 +45,23 @@ fn hash<H: Hash>(content: &H) -> u64 {
 /// A function used to count named objects
 pub fn reset() {
     *COUNTER.lock().unwrap() = None;
+}
+
+/// Verification hook: a canonical (sorted) copy of the counter state
+#[cfg(feature = "qrlew_verif")]
+pub fn verif_snapshot() -> Option<Vec<(String, usize)>> {
+    COUNTER.lock().unwrap().as_ref().map(|counter| {
+        let mut entries: Vec<(String, usize)> =
+            counter.iter().map(|(k, v)| (k.clone(), *v)).collect();
+        entries.sort();
+        entries
+    })
+}
+
+/// Verification hook: put the counter back into a state returned by `verif_snapshot`
+#[cfg(feature = "qrlew_verif")]
+pub fn verif_restore(state: Option<Vec<(String, usize)>>) {
+    *COUNTER.lock().unwrap() = state.map(|entries| entries.into_iter().collect());
 }
 
 pub fn new_name<S: Into<String>>(prefix: S) -> String {
